@@ -6,7 +6,9 @@
 // now and then (a preemption; through the atomic hook), which gives the pending target change time to run.
 // Oracle: items submitted to t[i] (directly, or through q while it targets t[i]) never overlap; items of q never overlap; every
 // synchronous call returns after its item has run; every asynchronous item runs; no call hangs (5 s without progress).
-// usage: c02_retarget <seed> <threads> <milliseconds>
+// With a fourth argument of 1 the global queue is a third target (q then runs on its own, under no serial target): a thread about to
+// wait for q may have read q's role in the hierarchy just before the change and q's target just after it.
+// usage: c02_retarget <seed> <threads> <milliseconds> [<with global queue>]
 #define _GNU_SOURCE
 #include <dispatch/dispatch.h>
 #include <stdio.h>
@@ -26,8 +28,12 @@ static uint64_t seed; static __thread uint64_t rng; static __thread int is_clien
 static inline uint64_t rnd(void){ if(!rng) rng = seed ^ (uint64_t)syscall(SYS_gettid)*0x9e3779b97f4a7c15ull; rng ^= rng<<13; rng ^= rng>>7; rng ^= rng<<17; return rng; }
 static atomic_int viol; static char vmsg[300];
 static void fail(const char *m, long a, long b, long c){ if(!atomic_exchange(&viol,1)) snprintf(vmsg,sizeof vmsg,"%s %ld %ld %ld",m,a,b,c); }
-static dispatch_queue_t q, t[2]; static char key; static volatile void *QS;
+static dispatch_queue_t q, t[3]; static int with_root; static char key; static volatile void *QS;
 static atomic_int in_q, in_t[2], stop, thr_done; static atomic_long n_items, async_out, flips, holds, progress;
+extern void (*_dispatch_verif_yield_cb)(const volatile void *addr, const char *func, int line);
+// a waiter has read q's role in the hierarchy and is about to take q's side lock to read q's target: now and then it is delayed there
+static void ycb(const volatile void *addr, const char *func, int line){ (void)addr;(void)line; if(!is_client || strcmp(func,"_dispatch_unfair_lock_lock")) return;
+  if(rnd()%2){ atomic_fetch_add(&holds,1); usleep((useconds_t)(30+rnd()%150)); } }
 static void cb(const volatile void *addr, unsigned size, int op, uint64_t o, uint64_t n, const char *func, int line){ (void)size;(void)o;(void)n;(void)line;
   if(addr!=QS || op!=3 || !is_client) return;      // a client thread's successful compare-and-swap on q's state
   if(strcmp(func,"_dispatch_lane_class_barrier_complete") && strcmp(func,"_dispatch_lane_non_barrier_complete")) return;
@@ -35,8 +41,10 @@ static void cb(const volatile void *addr, unsigned size, int op, uint64_t o, uin
 struct item { int which, is_async; long input, output; atomic_int done; unsigned spin; };
 static void work(void *c){ struct item *it=c; int d;
   if(it->which==2){ if(atomic_fetch_add(&in_q,1)) fail("two items of the serial queue whose target is being changed overlapped",0,0,0);
-    d=(int)(intptr_t)dispatch_get_specific(&key)-1; if(d!=0 && d!=1){ fail("an item of the retargeted queue ran under neither of its targets: queue-specific value",d+1,0,0); d=0; } }
+    d=(int)(intptr_t)dispatch_get_specific(&key)-1; if(d==-1 && with_root) d=2; else if(d!=0 && d!=1){ fail("an item of the retargeted queue ran under neither of its targets: queue-specific value",d+1,0,0); d=0; } }
   else d=it->which;
+  if(d==2){ for(volatile unsigned i=it->spin;i;i--){} atomic_fetch_sub(&in_q,1); it->output=it->input+1; atomic_fetch_add(&n_items,1); atomic_fetch_add(&progress,1);      // under the global queue: only q's own exclusion applies
+    if(it->is_async){ free(it); atomic_fetch_sub(&async_out,1); } else atomic_store(&it->done,1); return; }
   if(atomic_fetch_add(&in_t[d],1)) fail("two items of a serial queue overlapped (the queue is, or just was, the target of a queue whose target was changed): queue / item came through the retargeted queue",d,it->which==2,0);
   for(volatile unsigned i=it->spin;i;i--){}
   atomic_fetch_sub(&in_t[d],1); if(it->which==2) atomic_fetch_sub(&in_q,1);
@@ -52,18 +60,21 @@ static void *submitter(void *a){ long me=(long)a; long serial=0; is_client=1;
     else if(it.output!=it.input+1) fail("the result of a synchronously submitted item was not visible after the call returned",which,0,0); }
   atomic_fetch_add(&thr_done,1); return 0; }
 static void *retargeter(void *a){ (void)a; int next=1; is_client=1;
-  while(!atomic_load(&stop) && !viol){ dispatch_set_target_queue(q,t[next]);
+  while(!atomic_load(&stop) && !viol){ if(with_root && rnd()%2) next=2; dispatch_set_target_queue(q,t[next]);
     struct item s; memset(&s,0,sizeof s); s.which=2; dispatch_sync_f(q,&s,work);       // q is known to have moved before it is flipped again
-    atomic_fetch_add(&flips,1); next^=1; usleep((useconds_t)(100+rnd()%300)); }
+    atomic_fetch_add(&flips,1); next = next==2 ? (int)(rnd()%2) : next^1; usleep((useconds_t)(with_root ? 20+rnd()%60 : 100+rnd()%300)); }
   atomic_fetch_add(&thr_done,1); return 0; }
 // signals without SA_RESTART to the submitting threads: a thread parked in a synchronous submission is interrupted in its wait and
 // has to go back to it - being woken by a signal is not being handed the queue
 static pthread_t th[16]; static int nthr_g; static atomic_long pings; static void on_usr1(int s){ (void)s; }
 static void *pinger(void *a){ (void)a; int k=0; while(!atomic_load(&stop) && !viol){ pthread_kill(th[k++%nthr_g],SIGUSR1); atomic_fetch_add(&pings,1); usleep(150); } return 0; }
+static void on_crash(int sig){ char b[240]; int n=snprintf(b,sizeof b,"ORACLE VIOL seed=%llu the library trapped or crashed (signal %d) while threads submitted to a serial queue whose target was being changed\n",(unsigned long long)seed,sig); if(n>0) (void)!write(1,b,(size_t)n); _exit(1); }
 int main(int argc,char**argv){ seed=argc>1?strtoull(argv[1],0,0):1; int nthr=argc>2?atoi(argv[2]):6; int ms=argc>3?atoi(argv[3]):1500; if(nthr>16) nthr=16;
+  signal(SIGSEGV,on_crash); signal(SIGILL,on_crash); signal(SIGBUS,on_crash); signal(SIGABRT,on_crash);
+  with_root = argc>4 ? atoi(argv[4]) : 0; t[2]=(dispatch_queue_t)dispatch_get_global_queue(0,0);
   t[0]=dispatch_queue_create("rt.t0",NULL); t[1]=dispatch_queue_create("rt.t1",NULL); q=dispatch_queue_create("rt.q",NULL);
   dispatch_queue_set_specific(t[0],&key,(void*)1,NULL); dispatch_queue_set_specific(t[1],&key,(void*)2,NULL); dispatch_set_target_queue(q,t[0]);
-  QS=_dispatch_verif_queue_state_addr(q); _dispatch_verif_atomic_cb=cb;
+  QS=_dispatch_verif_queue_state_addr(q); _dispatch_verif_atomic_cb=cb; if(with_root) _dispatch_verif_yield_cb=ycb;
   struct sigaction sa; memset(&sa,0,sizeof sa); sa.sa_handler=on_usr1; sigaction(SIGUSR1,&sa,0); nthr_g=nthr;
   pthread_t rt, pg; for(long i=0;i<nthr;i++) pthread_create(&th[i],0,submitter,(void*)i); pthread_create(&rt,0,retargeter,0); pthread_create(&pg,0,pinger,0);
   long last=-1; int idle=0;
@@ -71,7 +82,7 @@ int main(int argc,char**argv){ seed=argc>1?strtoull(argv[1],0,0):1; int nthr=arg
   atomic_store(&stop,1);
   for(int w=0; w<200 && !viol; w++){ if(atomic_load(&thr_done)==nthr+1 && !atomic_load(&async_out)) break; usleep(50000); long p=atomic_load(&progress); if(p==last){ if(++idle>=100) break; } else { idle=0; last=p; } }
   if(idle>=100 && !viol && !(atomic_load(&thr_done)==nthr+1 && !atomic_load(&async_out))) fail("no item ran for 5 s although submissions are outstanding (a synchronous submission never returned or the queue stalled): items run / target changes",atomic_load(&n_items),atomic_load(&flips),0);
-  _dispatch_verif_atomic_cb=0;
+  _dispatch_verif_atomic_cb=0; _dispatch_verif_yield_cb=0;
   if(viol){ printf("ORACLE VIOL seed=%llu %s\n",(unsigned long long)seed,vmsg); fflush(stdout); _exit(1); }
   // all threads return once stop is set and nothing hangs
   pthread_join(pg,0); for(int i=0;i<nthr;i++) pthread_join(th[i],0); pthread_join(rt,0);
